@@ -22,6 +22,7 @@ import (
 	"os"
 	"path/filepath"
 	"strconv"
+	"strings"
 	"sync"
 	"sync/atomic"
 	"syscall"
@@ -204,7 +205,14 @@ func Start(opt Options) (*Env, error) {
 		e.mu.Lock()
 		e.notes = append(e.notes, n)
 		e.mu.Unlock()
-		w.WriteHeader(http.StatusNoContent)
+		// a consumer whose notify URI starts with /notify-<status>/ answers the notification with that status
+		status := http.StatusNoContent
+		if strings.HasPrefix(r.URL.Path, "/notify-") && len(r.URL.Path) >= 11 {
+			if c, err := strconv.Atoi(r.URL.Path[8:11]); err == nil && c >= 200 && c <= 599 {
+				status = c
+			}
+		}
+		w.WriteHeader(status)
 	}), &http2.Server{}))
 	return e, nil
 }
